@@ -1,0 +1,97 @@
+package comet
+
+// The index instances in StorageConfig are templates: they describe which kind
+// of index (and which construction parameters / trained state) the store uses.
+// Every memtable and every loaded segment must own its indexes; sharing the
+// template instances themselves makes all memtables write into one index and
+// makes every segment load overwrite it.
+
+// newVectorIndexLike returns a new, empty vector index with the same
+// construction parameters and, for trainable kinds, the same trained state as
+// the template. Unknown implementations are returned as they are.
+func newVectorIndexLike(t VectorIndex) VectorIndex {
+	switch v := t.(type) {
+	case nil:
+		return nil
+	case *FlatIndex:
+		idx, err := NewFlatIndex(v.dim, v.distanceKind)
+		if err != nil {
+			return t
+		}
+		return idx
+	case *HNSWIndex:
+		idx, err := NewHNSWIndex(v.dim, v.distanceKind, v.M, v.efConstruction, v.efSearch)
+		if err != nil {
+			return t
+		}
+		return idx
+	case *IVFIndex:
+		idx, err := NewIVFIndex(v.dim, v.nlist, v.distanceKind)
+		if err != nil {
+			return t
+		}
+		v.mu.RLock()
+		idx.centroids = copyVectors(v.centroids)
+		idx.trained = v.trained
+		v.mu.RUnlock()
+		return idx
+	case *PQIndex:
+		idx, err := NewPQIndex(v.dim, v.distanceKind, v.M, v.Nbits)
+		if err != nil {
+			return t
+		}
+		v.mu.RLock()
+		idx.codebooks = copyVectors(v.codebooks)
+		idx.trained = v.trained
+		v.mu.RUnlock()
+		return idx
+	case *IVFPQIndex:
+		idx, err := NewIVFPQIndex(v.dim, v.distanceKind, v.nlist, v.M, v.Nbits)
+		if err != nil {
+			return t
+		}
+		v.mu.RLock()
+		idx.centroids = copyVectors(v.centroids)
+		idx.codebooks = copyVectors(v.codebooks)
+		idx.trained = v.trained
+		v.mu.RUnlock()
+		return idx
+	default:
+		return t
+	}
+}
+
+// newTextIndexLike returns a new, empty text index of the template's kind.
+func newTextIndexLike(t TextIndex) TextIndex {
+	switch t.(type) {
+	case nil:
+		return nil
+	case *BM25SearchIndex:
+		return NewBM25SearchIndex()
+	default:
+		return t
+	}
+}
+
+// newMetadataIndexLike returns a new, empty metadata index of the template's kind.
+func newMetadataIndexLike(t MetadataIndex) MetadataIndex {
+	switch t.(type) {
+	case nil:
+		return nil
+	case *RoaringMetadataIndex:
+		return NewRoaringMetadataIndex()
+	default:
+		return t
+	}
+}
+
+func copyVectors(src [][]float32) [][]float32 {
+	if src == nil {
+		return nil
+	}
+	dst := make([][]float32, len(src))
+	for i, v := range src {
+		dst[i] = append([]float32(nil), v...)
+	}
+	return dst
+}
